@@ -407,7 +407,9 @@ func applyFnZoo() []zooItem {
 	}
 }
 
-var c10Names = []string{"n", "i", "", "$x", "'q'", `"q"`}
+var c10Names = []string{"n", "i", "", "$x", "'q'", `"q"`,
+	// reserved and quoted names with a quote character or a line break inside
+	`"a""`, `''a'`, "'''", "$a\nb", "'a\nb'", `"say "hi""`}
 var c10Srcs = []string{"", "i", "f", "b", "s", "e", "zz"}
 
 func applyMustErr(fn zooItem, dst, s1, s2 string) bool {
